@@ -1,5 +1,6 @@
 import Mathlib.Tactic
 import ExponaxModel.Model.Guards
+import ExponaxModel.Proofs.GuardsGenEq
 /-
 C20 — malformed states and unsupported configurations are rejected, not accepted.
 Decision logic only (the accept/reject behaviour of every exported class is compared
@@ -82,6 +83,62 @@ theorem C20_metric_mode (mode : ℕ) (hasRef : Bool) :
 theorem C20_conv_channels (single : Bool) (C D : ℕ) :
     convChannelsOk single C D = true ↔ (single = true ∨ C = D) := by
   cases single <;> simp [convChannelsOk]
+
+/-! ### the guards themselves, REGENERATED from every `if …: raise` of the source on every run
+(`Gen.Guards.<Owner>_<function>_accepts` is `true` exactly when no raise site of that function is reached;
+`harness/translate_guards.py`, 56 guarded functions, 77 raise sites) -/
+open Exponax.Gen.Guards in
+/-- every class with the stepper protocol accepts a state iff it has exactly the configured shape `(C, N, …, N)`;
+    the forced stepper requires it of the state AND of the forcing -/
+theorem C20_generated_call_guards (C D N : ℕ) (shape fshape : List ℕ) :
+    (BaseStepper_call_accepts D N C shape = true ↔ shape = C :: List.replicate D N) ∧
+    (RepeatedStepper_call_accepts D N C shape = true ↔ shape = C :: List.replicate D N) ∧
+    (ForcedStepper_call_accepts D N C shape fshape = true ↔
+      shape = C :: List.replicate D N ∧ fshape = C :: List.replicate D N) ∧
+    (Poisson_call_accepts D N shape = true ↔ shape.drop 1 = List.replicate D N) :=
+  ⟨BaseStepper_call_accepts_iff C D N shape, RepeatedStepper_call_accepts_iff C D N shape,
+   ForcedStepper_call_accepts_iff D N C shape fshape, Poisson_call_accepts_iff shape D N⟩
+
+open Exponax.Gen.Guards in
+/-- no broadcasting over channels, no batch axis, no missing axis, no unequal axis — about the regenerated check -/
+theorem C20_generated_rejects (C D N : ℕ) :
+    (∀ C', C' ≠ C → BaseStepper_call_accepts D N C (C' :: List.replicate D N) = false) ∧
+    (∀ B, BaseStepper_call_accepts D N C (B :: C :: List.replicate D N) = false) ∧
+    (BaseStepper_call_accepts (D + 1) N C (C :: List.replicate D N) = false) ∧
+    (∀ sp, (∃ n ∈ sp, n ≠ N) → BaseStepper_call_accepts D N C (C :: sp) = false) :=
+  BaseStepper_call_rejects C D N
+
+open Exponax.Gen.Guards in
+/-- the dimension-restricted constructors and nonlinear terms accept exactly their documented dimension -/
+theorem C20_generated_dimension_restrictions (D : ℕ) :
+    (NavierStokesVorticity_init_accepts D = true ↔ D = 2) ∧
+    (KolmogorovFlowVorticity_init_accepts D = true ↔ D = 2) ∧
+    (GeneralVorticityConvectionStepper_init_accepts D = true ↔ D = 2) ∧
+    (VorticityConvection2d_init_accepts D = true ↔ D = 2) ∧
+    (NavierStokesVelocity_init_accepts D = true ↔ D = 3) ∧
+    (KolmogorovFlowVelocity_init_accepts D = true ↔ D = 3) ∧
+    (ProjectedConvection3d_init_accepts D = true ↔ D = 3) :=
+  dimension_restrictions_iff D
+
+open Exponax.Gen.Guards in
+/-- operator order parity, generator option validation, convection channel count — regenerated = documented -/
+theorem C20_generated_option_guards (order : ℕ) (zeroMean stdOne maxOne single conservative : Bool) (C D : ℕ)
+    (rest : List ℕ) :
+    (build_laplace_operator_accepts order = true ↔ order % 2 = 0) ∧
+    (validate_normalization_options_accepts zeroMean stdOne maxOne = false ↔
+      (zeroMean = false ∧ stdOne = true) ∨ (stdOne = true ∧ maxOne = true)) ∧
+    (RandomTruncatedFourierSeries_init_accepts stdOne maxOne zeroMean = icNormOk zeroMean stdOne maxOne) ∧
+    (ConvectionNonlinearFun_call_accepts single conservative D (C :: rest) = true ↔ (single = true ∨ C = D)) :=
+  ⟨build_laplace_operator_accepts_iff order, validate_normalization_options_rejects_iff zeroMean stdOne maxOne,
+   RandomTruncatedFourierSeries_init_accepts_eq zeroMean stdOne maxOne,
+   ConvectionNonlinearFun_call_accepts_iff single conservative C D rest⟩
+
+/-- coverage is pinned: 77 raise sites, and each of the four stepper-protocol classes guards its `__call__`
+    (a guard that is deleted, or a new unguarded entry point, breaks this) -/
+theorem C20_generated_coverage :
+    Gen.Guards.generated_raise_sites = 77 ∧
+      Gen.Guards.stepper_call_guards = [("BaseStepper", 1), ("ForcedStepper", 2), ("Poisson", 1), ("RepeatedStepper", 1)] :=
+  ⟨generated_raise_sites_eq, stepper_call_guards_eq⟩
 
 /-! non-vacuity -/
 example : acceptsShape 2 3 16 [2, 16, 16, 16] = true := by decide
